@@ -25,5 +25,10 @@ def run(run):
     gsm.simulate(run, 'C10', 9, 3000 if quick else 40000, keep=KEEP, free=False, timeout=300 if quick else 1800)
     gsm.simulate(run, 'ALL', 12, 2000 if quick else 40000, keep=KEEP, lang='LDef', timeout=300 if quick else 1800)
     gsm.simulate(run, 'ALL', 12, 2000 if quick else 40000, keep=KEEP, timeout=300 if quick else 1800)
+    # larger, model-less graphs: the Gen_AprioriBig families, analysed, written (.json; .yml for the 12-node members) and loaded
+    # without a model: nodes (id, type, labels as the specification computes them, statuses, TTC) and edges par[c] -> c
+    run.gen_replay('Gen_AprioriBig', 'Gen_AprioriBig.cfg', 'harness.replay_persist_big', {'seed': run.seed, 'mode': 'file'},
+                   env={'VERIF_L1': 12, 'VERIF_L2': 120 if quick else 240, 'VERIF_L3': 0 if quick else 800}, timeout=900, workers=16,
+                   name='save / load of analysed graph families of 12 / %d nodes, 2 arrival orders each' % (120 if quick else 240))
     if not quick:
         gsm.mc_slice(run, 'C10', 6, depth=8, must=('SaveLoad',))          # larger design check last
